@@ -499,3 +499,37 @@ Proof.
   cbn [c_compressed ls_files ls_uncompressed opt_converters to_storage layer_to] in *.
   rewrite negb_involutive in E2. repeat split; assumption.
 Qed.
+
+(* ---------- a PUT answered 200 stored exactly the body, whatever its length ---------- *)
+
+Lemma put_200_stores H zcomp zdecomp c s r rs s' :
+  r_method r = PUT -> chunk_handle H zcomp zdecomp c s r = (rs, s') -> status rs = 200%N ->
+  exists ib d,
+    id_from_path (c_compressed c) (r_path r) = Some ib /\
+    from_storage zdecomp (handler_conv c) (r_body r) = Some d /\
+    lookup (id_of_bytes ib) (ls_files s') = Some (to_storage zcomp (opt_converters (ls_uncompressed s)) d).
+Proof.
+  intros Em E Hs. unfold chunk_handle in E.
+  destruct (chunk_serve_cases H zdecomp c r) as [[Ea _]|[_ [Ea|[ib [Eid [[Ea Em']|[[Ea Em']|[[Ea Em']|[Ea [_ [_ [_ [ch Ech]]]]]]]]]]]]];
+    try congruence; rewrite Ea in E; cbn [chunk_exec] in E; try (injection E as <- _; discriminate Hs).
+  rewrite Ech in E. unfold local_store in E.
+  destruct (new_chunk_id H zdecomp _ _ _ _ _ Ech) as [Eid' _].
+  pose proof (new_chunk_data H zdecomp _ _ _ _ _ Ech) as Edata.
+  destruct (chunk_data zdecomp ch) as [d|] eqn:Ed; [|injection E as <- _; discriminate Hs].
+  injection E as _ <-. exists ib, d. split; [exact Eid|]. rewrite Eid'. split.
+  - destruct (nonempty (r_body r)); [now symmetry|discriminate].
+  - cbn [ls_files]. apply lookup_update_same.
+Qed.
+
+(* uncompressed server in front of an uncompressed store: the file is the body, byte for byte *)
+Lemma put_200_stores_body H zcomp zdecomp c s r rs s' :
+  r_method r = PUT -> c_compressed c = false -> ls_uncompressed s = true ->
+  chunk_handle H zcomp zdecomp c s r = (rs, s') -> status rs = 200%N ->
+  exists ib, id_from_path false (r_path r) = Some ib /\
+             lookup (id_of_bytes ib) (ls_files s') = Some (r_body r).
+Proof.
+  intros Em Hc Hu E Hs. destruct (put_200_stores H zcomp zdecomp c s r rs s' Em E Hs) as [ib [d [E1 [E2 E3]]]].
+  exists ib. rewrite Hc in E1. split; [exact E1|].
+  unfold handler_conv in E2. rewrite Hc in E2. cbn in E2. injection E2 as <-.
+  rewrite Hu in E3. exact E3.
+Qed.
